@@ -66,8 +66,8 @@ fn cr(k: bool, q: bool) -> CastleRights {
 pub fn check_edits(ctx: &mut Ctx, mode: Mode, p: &Pos, b: &Board, n_squares: usize, case0: &dyn Fn() -> Value) -> Result<(), Violation> {
     let h = fp(&(p, "edit"));
     // ---------------------------------------------------------------- set_piece / clear_square
-    // (positions with en-passant state are left out: the editing functions keep the recorded
-    // state whatever happens to the pawns involved, which no property speaks about)
+    // (positions with en-passant state are handled further down: the editing functions keep the
+    // recorded state whatever happens to the pawns involved, which no property speaks about)
     if p.ep.is_none() && b.en_passant().is_none() {
         for i in 0..n_squares {
             let s = ((h >> (6 * i)) & 63) as u8;
@@ -111,6 +111,60 @@ pub fn check_edits(ctx: &mut Ctx, mode: Mode, p: &Pos, b: &Board, n_squares: usi
                     compare(ctx, mode, &r, &np, "set_piece", &case)?;
                 }
                 None => ctx.class("edit:set_piece-none"),
+            }
+        }
+    }
+    // with en-passant state recorded: edits that leave the en-passant situation alone (not the pushed
+    // pawn, not the two squares behind it, and a pawn that can capture remains) keep the state, and
+    // the edited board is the position with that state; the squares beside the pushed pawn first
+    if let (Some(t), Some(_)) = (p.ep, b.en_passant()) {
+        let (pawn_sq, origin) = if p.stm == Col::W { (t - 8, t + 8) } else { (t + 8, t - 8) };
+        let mut squares: Vec<Sq> = vec![];
+        for df in [-1i8, 1] {
+            if let Some(q) = mk(file_of(pawn_sq) + df, rank_of(pawn_sq)) {
+                squares.push(q);
+            }
+        }
+        for i in 0..n_squares {
+            squares.push(((h >> (6 * i)) & 63) as u8);
+        }
+        for (i, s) in squares.into_iter().enumerate() {
+            if s == pawn_sq || s == t || s == origin || matches!(p.at(s), Some((_, Kind::K))) {
+                continue;
+            }
+            if p.at(s).is_some() {
+                let mut np = p.clone();
+                np.board[s as usize] = None;
+                if np.ep_adjacent_pawn() && np.validate().is_ok() {
+                    let case = || {
+                        let mut c = case0();
+                        c["edit"] = json!(format!("clear_square({})", sq_name(s)));
+                        c
+                    };
+                    if let Some(r) = b.clear_square(bridge::sq(s)) {
+                        ctx.class("edit:clear_square-with-en-passant-state");
+                        compare(ctx, mode, &r, &np, "clear_square", &case)?;
+                    }
+                }
+            }
+            let kinds = [Kind::P, Kind::N, Kind::B, Kind::R, Kind::Q];
+            let mut k = kinds[(h.rotate_right(24 + 3 * i as u32) % 5) as usize];
+            if k == Kind::P && (rank_of(s) == 0 || rank_of(s) == 7) {
+                k = Kind::N;
+            }
+            let c = if h.rotate_right(40 + i as u32) & 1 == 0 { Col::W } else { Col::B };
+            let mut np = p.clone();
+            np.board[s as usize] = Some((c, k));
+            if np.ep_adjacent_pawn() && np.validate().is_ok() {
+                let case = || {
+                    let mut cj = case0();
+                    cj["edit"] = json!(format!("set_piece({:?}, {:?}, {})", k, c, sq_name(s)));
+                    cj
+                };
+                if let Some(r) = b.set_piece(bridge::kind(k), bridge::col(c), bridge::sq(s)) {
+                    ctx.class("edit:set_piece-with-en-passant-state");
+                    compare(ctx, mode, &r, &np, "set_piece", &case)?;
+                }
             }
         }
     }
